@@ -240,6 +240,12 @@ def main(pid):
         "reduction_assumption bad bit guards the coordinator-side exemption); fn start fused with the preceding `stop` test",
         "bounds: the listed (N, W) instances only; graphs with more nodes / more workers are outside the claim",
         "z3 bit-vector width 4 for counters (overflow is a bad bit)",
+        "constructs the pinned source does not use but a changed one may: lists of nodes = sequences of <= 6 elements with live iteration (longer: "
+        "model-limit query -> the instance is inconclusive, never a pass); a timed / non-blocking queue.get times out at most once per run, only while "
+        "the queue is empty; calls on module-level objects the model does not know (logging, time) have no effect on the engine state (listed per instance)",
+        "assert_acyclic contract lemma (E1, xh/harness_topo.py c07_kahn) and prepare_nodes closed form incl. 'nothing leaks from an earlier call' "
+        "(xh/harness_queue.py c04_prepare) are part of every engine check; C07 also: a refused Thread.start (RuntimeError, at most once; instance "
+        "startfail_*: termination bits only) and 'reporting a failure terminates' (c07_render: <= 3 recorded frames, budget of 200 frame reads)",
         "queue contract lemma (E1, xh/harness_queue.py): the real RandomQueue / PriorityQueue / simple queue under CrossHair with a stubbed `random` "
         "(randrange within its documented range, shuffle = a symbolic permutation), symbolic items/priorities, operation strings of <= 8 put/get",
         "retry lemma (E1, xh/harness_retry.py; C10 only): create_retry(n) with symbolic n <= 4 and a callable failing on its first j <= 5 attempts; "
